@@ -23,7 +23,7 @@ EXPLANATION = ('An abstract evaluation of the comparison-only function RuleEntry
                'on every opcode handler bound for constraint code, monotonicity of the pass index, and the size expression that '
                'wipes recycled slots.  The matching / precedence OUTPUT of rule programs against a reference semantics is a '
                'run-time fact and is not decided.')
-FLOORS = {'PRECEDENCE': 6, 'FIRSTPASSING': 1, 'PURECONSTRAINT': 30, 'PASSORDER': 4, 'RECYCLECLEAN': 3}
+FLOORS = {'PRECEDENCE': 6, 'FIRSTPASSING': 2, 'PURECONSTRAINT': 30, 'PASSORDER': 4, 'RECYCLECLEAN': 3}
 
 MUTATORS = {'graphite2::Slot::setGlyph', 'graphite2::Slot::attachTo', 'graphite2::Slot::child', 'graphite2::Slot::sibling', 'graphite2::Slot::removeChild',
             'graphite2::Slot::setAttr', 'graphite2::Segment::setFeature', 'graphite2::Segment::newSlot', 'graphite2::Segment::freeSlot',
@@ -495,6 +495,16 @@ def run(run):
     attrsign(run, fx)
     setglyphfx(run, fx)
     freshmark(run, fx)
+    try:
+        from . import ordint as O_
+        cases_, bad_ = firstpassing_exec(run, fx)
+        fd_ = fx.one('graphite2::Pass::findNDoRule')
+        if bad_:
+            run.violated('FIRSTPASSING', 'the first candidate whose constraint holds is the one applied (findNDoRule interpreted)', fd_.where(), bad_)
+        else:
+            run.held('FIRSTPASSING', 'the first candidate whose constraint holds is the one applied (findNDoRule interpreted)', fd_.where(), '%d abstract executions' % cases_)
+    except (AnalysisBroken, O_.AnalysisBroken) as ex:
+        run.broken('FIRSTPASSING', 'the first candidate whose constraint holds is the one applied (findNDoRule interpreted)', str(ex), '')
     inst_ = 'accumulate_rules gives the precedence-sorted union (interpreted)'
     ar_ = fx.one('graphite2::FiniteStateMachine::Rules::accumulate_rules')
     try:
@@ -712,4 +722,62 @@ def merge_exec(run, fx, full=False):
                     want = [k for k in order if (lmask | rmask) >> k & 1]
                     if got != want:
                         return cases, '%s: the merged candidate list is %s, the precedence-sorted union is %s (findNDoRule applies the first candidate that passes: a rule out of place or listed twice changes which rule fires)' % (desc, got, want)
+    return cases, None
+
+
+def firstpassing_exec(run, fx):
+    """FIRSTPASSING by bounded execution: Pass::findNDoRule is interpreted with the FSM walk, the constraint test and the action as
+    natives (the candidate list and the truth value of every candidate's constraint are chosen by the harness): for every candidate
+    list of 0..4 rules and every assignment of constraint results, exactly one action runs -- that of the FIRST candidate whose
+    constraint holds -- or, if none holds (or the FSM matched nothing), no action runs and the cursor moves on by exactly one slot."""
+    import itertools
+    from . import ordint as O
+    fn = fx.one('graphite2::Pass::findNDoRule')
+    PF, PR, PE, PS = 'graphite2::FiniteStateMachine::', 'graphite2::FiniteStateMachine::Rules::', 'graphite2::RuleEntry::', 'graphite2::Slot::'
+    cases = 0
+    for n in range(0, 5):
+        for truth in itertools.product((False, True), repeat=n):
+            for matched in ((True, False) if n else (True,)):
+                rules = O.Vec([O.Rec({'#': k, 'graphite2::Rule::action': O.Ptr(O.Rec({'#act': k})), 'graphite2::Rule::constraint': O.Ptr(O.Rec())}) for k in range(n)])
+                ents = O.Vec([O.Rec({PE + 'rule': O.It(rules, k)}) for k in range(n)])
+                rs = O.Rec({PR + 'm_begin': O.It(ents, 0), PR + 'm_end': O.It(ents, n)})
+                fsm = O.Rec({PF + 'rules': rs, PF + 'slots': O.Rec(), PF + 'dbgout': O.Ptr(None)})
+                s1 = O.Rec({PS + 'm_next': O.Ptr(None), '#': 1})
+                s0 = O.Rec({PS + 'm_next': O.Ptr(s1), '#': 0})
+                log = []
+
+                def tc(I, f, e, obj, a, truth=truth, log=log):
+                    r_ = I.rv(a[0])
+                    r_ = r_ if isinstance(r_, O.Rec) else (I.deref_it(r_, f, e).load() if isinstance(r_, O.It) else r_.rec)
+                    log.append(('test', r_['#']))
+                    return truth[r_['#']]
+
+                def act(I, f, e, obj, a, log=log):
+                    c_ = I.rv(a[0])
+                    log.append(('act', c_.rec['#act']))
+                    return 0
+                nat = {'graphite2::Pass::runFSM': lambda I, f, e, obj, a, matched=matched: matched,
+                       'graphite2::Pass::testConstraint': tc, 'graphite2::Pass::doAction': act,
+                       'graphite2::Pass::adjustSlot': lambda I, f, e, obj, a: None,
+                       'graphite2::vm::Machine::status': lambda I, f, e, obj, a: 0,
+                       'graphite2::vm::Machine::Code::deletes': lambda I, f, e, obj, a: False,
+                       'graphite2::SlotMap::collectGarbage': lambda I, f, e, obj, a: None}
+                it = O.Interp(fx, natives=nat)
+                it.MAX_STEPS = 3000
+                box = [O.Ptr(s0)]
+                cases += 1
+                desc = '%d candidate(s), constraints %s%s' % (n, list(truth), '' if matched else ', FSM matched nothing')
+                try:
+                    it.call(fn, O.Rec(), [O.LV(box, 0), O.Rec(), fsm])
+                except O.Violation as v:
+                    return cases, '%s: %s (%s)' % (desc, v.what, v.loc)
+                acts = [x[1] for x in log if x[0] == 'act']
+                first = next((k for k in range(n) if truth[k]), None) if matched else None
+                if first is None:
+                    if acts:
+                        return cases, '%s: the action of rule %s runs although no candidate\'s constraint holds' % (desc, acts)
+                    if box[0].rec is not s1:
+                        return cases, '%s: no rule applies, but the cursor does not move on by one slot' % desc
+                elif acts != [first]:
+                    return cases, '%s: the action(s) run are %s, expected exactly that of candidate %d, the first whose constraint holds' % (desc, acts, first)
     return cases, None
